@@ -9,6 +9,7 @@ import (
 	"time"
 
 	"github.com/gopcua/opcua/ua"
+	"github.com/gopcua/opcua/uacp"
 	"github.com/gopcua/opcua/uasc"
 
 	"verifharness/internal/rng"
@@ -298,7 +299,7 @@ func stepUntilBlocked(ctl *sched.Controller, name string, max int) (string, []st
 func c19race(seed uint64, which []string) {
 	if len(which) == 0 || which[0] == "all" {
 		// ("opn-after-open-gave-up" is run in a process of its own: before fix 069bea7 it killed the process)
-		which = []string{"pop-timer-deliver", "pop-deliver-timer", "opn-timeout-race", "unsolicited-opn"}
+		which = []string{"pop-timer-deliver", "pop-deliver-timer", "opn-timeout-race", "unsolicited-opn", "fail-between-chunks"}
 	}
 	for i, w := range which {
 		name := fmt.Sprintf("c19race-%s", w)
@@ -367,10 +368,74 @@ func c19opnLate(name string) error {
 	return nil
 }
 
+// c19failBetweenChunks: a three-chunk request whose context is cancelled after its first chunk is on the wire.
+// The call returns an error; its handler must be gone and a later request must be answered.
+func c19failBetweenChunks(r *rng.R, name string) error {
+	ack := &uacp.Acknowledge{ReceiveBufSize: 8192, SendBufSize: 8192}
+	p, err := NewPair(PairOpts{Timeout: 5 * time.Second, ClientACK: ack})
+	if err != nil {
+		return err
+	}
+	defer p.Close()
+	ctl := sched.New()
+	uasc.VerifSetSchedHook(ctl.Hook)
+	defer uasc.VerifSetSchedHook(nil)
+	defer ctl.FreeAll()
+	p.V.SetRequestID(uint32(r.Intn(5000)))
+	s := newScen(p, r, name)
+	taken := map[int]bool{}
+	a := s.newCaller(tyWrite, 3*time.Second)
+	ctl.Control("A")
+	big := 2*(int(p.Conn.SendBufSize())-40) + 100
+	a.start(p.SC, a.Tid, big, func() { ctl.Bind("A") }, func() { ctl.Done() })
+	chunkArrivals := 0
+	for i := 0; i < 12 && chunkArrivals < 2; i++ {
+		_, now, err := ctl.Step("A", 2*time.Second, 0)
+		if err != nil {
+			return fmt.Errorf("sender did not reach the chunk loop: %v", err)
+		}
+		if now == "sc.send.chunk" {
+			chunkArrivals++
+		}
+		if now == "done" {
+			return fmt.Errorf("sender finished before it could be cancelled")
+		}
+	}
+	if chunkArrivals < 2 {
+		return fmt.Errorf("sender did not reach its second chunk")
+	}
+	a.cancel() // one chunk is on the wire; the loop sees the cancelled context before the second
+	ctl.Free("A")
+	if !s.wait(a, 3*time.Second) {
+		return fmt.Errorf("cancelled sender did not return")
+	}
+	a.mu.Lock()
+	a.Code = 7 // the send failed (ctx) after the handler had been registered
+	id := a.ID
+	a.mu.Unlock()
+	s.idOf[a.Tid] = id
+	s.probe[id] = true
+	s.events = append(s.events, Ev{"alloc", a.Tid, 0, a.Want}, Ev{"reg", a.Tid}, Ev{"write", a.Tid, false})
+	taken[a.Tid] = true
+	s.emitC19("send-failed-between-chunks", map[string]interface{}{"expect_ok": []int{}, "disp": -1})
+	b, err := s.healthyCall(taken)
+	if err != nil {
+		return err
+	}
+	s.emitC19("after", map[string]interface{}{"expect_ok": []int{b.Tid}, "disp": -1})
+	for _, c := range s.callers {
+		c.cancel()
+	}
+	return nil
+}
+
 func c19raceOne(r *rng.R, name, which string) error {
 	stallReset()
 	if which == "opn-after-open-gave-up" {
 		return c19opnLate(name)
+	}
+	if which == "fail-between-chunks" {
+		return c19failBetweenChunks(r, name)
 	}
 	reqTimeout := 10 * time.Second
 	if which == "opn-timeout-race" {
